@@ -19,16 +19,20 @@ Range(s) == {s[i] : i \in 1..Len(s)}
 TConn == {x.c : x \in Range(Rec[1].conns)}
 THome == [c \in TConn |-> (CHOOSE x \in Range(Rec[1].conns) : x.c = c).home]
 
-VARIABLE l
-tvars == <<vars, l>>
-TraceInit == Init /\ l = 2
+\* instances registered over HTTP have no owning connection: contract level only - the set of addresses registered
+\* and not deregistered (through whichever node); every live node returns exactly that set once settled
+VARIABLES l, hset
+tvars == <<vars, l, hset>>
+TraceInit == Init /\ l = 2 /\ hset = {}
 IsEvent(e) == l <= Len(Rec) /\ Rec[l].ev = e /\ l' = l + 1
 
-TReg == IsEvent("reg") /\ Register(Rec[l].c, Rec[l].a)
-TDereg == IsEvent("dereg") /\ Deregister(Rec[l].c, Rec[l].a)
-TClose == IsEvent("close") /\ Close(Rec[l].c)
-TDie == IsEvent("die") /\ Die(Rec[l].n)
-TStart == IsEvent("start") /\ Start(Rec[l].n)
+TReg == IsEvent("reg") /\ Register(Rec[l].c, Rec[l].a) /\ UNCHANGED hset
+TDereg == IsEvent("dereg") /\ Deregister(Rec[l].c, Rec[l].a) /\ UNCHANGED hset
+TClose == IsEvent("close") /\ Close(Rec[l].c) /\ UNCHANGED hset
+TDie == IsEvent("die") /\ Die(Rec[l].n) /\ UNCHANGED hset
+TStart == IsEvent("start") /\ Start(Rec[l].n) /\ UNCHANGED hset
+THReg == IsEvent("hreg") /\ hset' = hset \cup {Rec[l].a} /\ UNCHANGED vars
+THDereg == IsEvent("hdereg") /\ hset' = hset \ {Rec[l].a} /\ UNCHANGED vars
 
 \* owner of address a in the converged state (0 = nobody)
 OwnerOf(a) == IF \E o \in Node : alive[o] /\ a \in DOMAIN inst[o] /\ inst[o][a].from = 0
@@ -42,14 +46,15 @@ TSettle ==
     /\ cidx' = [n \in Node |-> IF ~alive[n] THEN cidx[n]
                                ELSE [c \in {x \in Conn : \E a \in Addr : OwnerOf(a) # 0 /\ inst[OwnerOf(a)][a].client = x} |->
                                         {a \in Addr : OwnerOf(a) # 0 /\ inst[OwnerOf(a)][a].client = c}]]
-    /\ UNCHANGED <<alive, open, ops>>
+    /\ UNCHANGED <<alive, open, ops, hset>>
 
 TRead ==
     /\ IsEvent("read")
     /\ View(Rec[l].n) = {<<x.a, x.c>> : x \in Range(Rec[l].view)}
-    /\ UNCHANGED vars
+    /\ Range(Rec[l].hview) = hset
+    /\ UNCHANGED <<vars, hset>>
 
-TraceNext == TReg \/ TDereg \/ TClose \/ TDie \/ TStart \/ TSettle \/ TRead
+TraceNext == TReg \/ TDereg \/ TClose \/ TDie \/ TStart \/ THReg \/ THDereg \/ TSettle \/ TRead
 TraceSpec == TraceInit /\ [][TraceNext]_tvars
 
 TraceAccepted ==
